@@ -252,6 +252,9 @@ func c03(r *vc.Run) int {
 			m.Races[s]++
 		}
 		m.mu.Unlock()
+		// a -race child exits 66 when the detector printed a report; the report is a diagnostic
+		// (counted above, shown in the notes), it is not the exit status the property speaks about
+		raceOnlyExit := j.race && res.Exit == 66 && len(raceSigs(res.Stderr)) > 0
 		cfgClass := fmt.Sprintf("proxy=%v/async=%v", j.sc.UseProxy, j.sc.Cfg.WARCWriteAsync)
 		if j.sc.Cfg.UseHQ {
 			cfgClass += "/hq"
@@ -278,11 +281,11 @@ func c03(r *vc.Run) int {
 		default:
 			if crashed, excerpt := res.Crashed(); crashed {
 				r.Violation("crash/"+crashSig(res.Stderr), label+": crashed: "+truncate(excerpt, 800), map[string]any{"scenario": j.sc, "stderr_tail": tail(res.Stderr, 5000)})
-			} else if res.Exit != 0 {
+			} else if res.Exit != 0 && !raceOnlyExit {
 				r.Violation(fmt.Sprintf("exit-status-%d", res.Exit), label+": exit status "+fmt.Sprint(res.Exit)+" "+res.Signal+": "+tail(res.Stderr, 600), map[string]any{"scenario": j.sc})
 			}
 		}
-		if !res.TimedOut && res.Exit == 0 {
+		if !res.TimedOut && (res.Exit == 0 || raceOnlyExit) {
 			var rep childReport
 			if readJSON(filepath.Join(dir, "report.json"), &rep) == nil && rep.Extra["trigger_not_reached"] == nil || j.sc.Mode == "sigterm" {
 				reached.Add(fmt.Sprintf("%s/%s/%s", j.sc.Moment, j.sc.Mode, cfgClass))
